@@ -14,7 +14,7 @@ for _p in sorted(glob.glob(os.path.join(_here, "harness", "c[0-9][0-9]", "config
     PROPS[_pid] = _ns["PROP"]
 
 # Only these are claimed in MANIFEST.json (a package can exist while it is still being built).
-CLAIMED = ["C01", "C02", "C03", "C04", "C05", "C06", "C07", "C08", "C09", "C10", "C11", "C12", "C13", "C14", "C15", "C17", "C18", "C19", "C20"]
+CLAIMED = ["C01", "C02", "C03", "C04", "C05", "C06", "C07", "C08", "C09", "C10", "C11", "C12", "C13", "C14", "C15", "C16", "C17", "C18", "C19", "C20"]
 PROPS_ALL = PROPS
 PROPS_CLAIMED = {k: v for k, v in PROPS.items() if k in CLAIMED}
 
